@@ -688,6 +688,22 @@ static unsigned parse_hex4(const unsigned char * const input)
     return h;
 }
 
+/* check that the 4 characters are hexadecimal digits (parse_hex4 returns 0 for "0000" and for garbage alike) */
+static cJSON_bool is_hex4(const unsigned char * const input)
+{
+    size_t i = 0;
+
+    for (i = 0; i < 4; i++)
+    {
+        if (!(((input[i] >= '0') && (input[i] <= '9')) || ((input[i] >= 'A') && (input[i] <= 'F')) || ((input[i] >= 'a') && (input[i] <= 'f'))))
+        {
+            return false;
+        }
+    }
+
+    return true;
+}
+
 /* converts a UTF-16 literal to UTF-8
  * A literal can be one or two sequences of the form \uXXXX */
 static unsigned char utf16_literal_to_utf8(const unsigned char * const input_pointer, const unsigned char * const input_end, unsigned char **output_pointer)
@@ -707,6 +723,11 @@ static unsigned char utf16_literal_to_utf8(const unsigned char * const input_poi
     }
 
     /* get the first utf16 sequence */
+    if (!is_hex4(first_sequence + 2))
+    {
+        /* not four hexadecimal digits */
+        goto fail;
+    }
     first_code = parse_hex4(first_sequence + 2);
 
     /* check that the code is valid */
@@ -736,6 +757,11 @@ static unsigned char utf16_literal_to_utf8(const unsigned char * const input_poi
         }
 
         /* get the second utf16 sequence */
+        if (!is_hex4(second_sequence + 2))
+        {
+            /* not four hexadecimal digits */
+            goto fail;
+        }
         second_code = parse_hex4(second_sequence + 2);
         /* check that the code is valid */
         if ((second_code < 0xDC00) || (second_code > 0xDFFF))
